@@ -431,3 +431,72 @@ def same_optimum(a, b):
     if a[0] == "optimal":
         return close(a[1], b[1])
     return a[1] == b[1]
+
+
+# ----------------------------------------------------------------------------------------------------------------------
+# crash-proof fork pool: GLPK *aborts the process* on a name with a control character (which a broken id escaper produces);
+# multiprocessing.Pool would then wait for ever for the lost task
+# ----------------------------------------------------------------------------------------------------------------------
+class Crashed:
+    """result placeholder for a unit whose process died"""
+
+    def __init__(self, exitcode):
+        self.exitcode = exitcode
+
+    def __repr__(self):
+        return f"Crashed(exitcode={self.exitcode})"
+
+
+def _child(fn, unit, conn):
+    try:
+        conn.send(("ok", fn(unit)))
+    except BaseException as e:  # noqa
+        import traceback
+        conn.send(("exc", f"{type(e).__name__}: {e}\n{traceback.format_exc()[-1500:]}"))
+    finally:
+        conn.close()
+
+
+def run_units(fn, units, nproc=None):
+    """fn(unit) for every unit, each in its own forked process, at most `nproc` at a time.
+    -> list aligned with `units`: the result, or Crashed(exitcode) if the process died, or raises if fn raised"""
+    import multiprocessing as mp
+    import os
+    from multiprocessing.connection import wait
+    ctx = mp.get_context("fork")
+    nproc = nproc or min(16, os.cpu_count() or 1)
+    results = [None] * len(units)
+    todo = list(range(len(units)))[::-1]
+    running = {}
+    while todo or running:
+        while todo and len(running) < nproc:
+            i = todo.pop()
+            parent, child = ctx.Pipe(duplex=False)
+            p = ctx.Process(target=_child, args=(fn, units[i], child), daemon=True)
+            p.start()
+            child.close()
+            running[i] = (p, parent)
+        ready = wait([c for _, c in running.values()] + [p.sentinel for p, _ in running.values()], timeout=5.0)
+        for i in list(running):
+            p, c = running[i]
+            if c in ready or p.sentinel in ready:
+                got = None
+                try:
+                    if c.poll(0.2 if p.sentinel in ready else 0):
+                        got = c.recv()
+                except (EOFError, OSError):
+                    got = None
+                if got is None and p.is_alive() and c not in ready:
+                    continue
+                if got is None and p.is_alive():
+                    continue
+                p.join(timeout=10)
+                c.close()
+                del running[i]
+                if got is None:
+                    results[i] = Crashed(p.exitcode)
+                elif got[0] == "exc":
+                    raise RuntimeError(f"unit {i} raised in the worker: {got[1]}")
+                else:
+                    results[i] = got[1]
+    return results
